@@ -34,6 +34,7 @@ type c17cfg struct {
 	closeAfterQueries bool // closers start only after the callers returned (e.g. while a dropped connection is being replaced)
 	removeHost        bool // a thread removes a host (as a refresh would) while others query
 	dialFault         bool
+	closeDelay        time.Duration // the closers first let this much virtual time pass (e.g. the event debounce interval: Close lands on the flush)
 	lateClose         bool // the closers first let 1ms of virtual time pass (Close lands wherever timer deviations put it)
 	upTwice           bool // a host without a pool (reported down) is brought back by two concurrent triggers (UP event and reconnect tick)
 	refill3           bool // two of three connections are lost; the replacing handshakes may be dropped or slow (free choices) while queries keep arriving
@@ -242,6 +243,9 @@ func (c *c17cfg) body() {
 			if c.lateClose {
 				vs.Sleep(time.Millisecond)
 			}
+			if c.closeDelay > 0 {
+				vs.Sleep(c.closeDelay)
+			}
 			sess.Close()
 			vs.Send(done, res{fmt.Sprintf("close%d", i), nil})
 		})
@@ -347,6 +351,7 @@ func main() {
 		{name: "control-close", control: true, hosts: 2, numConns: 1, callers: 1, closers: 1, fates: ok, t: [2]int{1, 3}},
 		{name: "control-early-close", control: true, hosts: 1, numConns: 1, closers: 1, earlyClose: true, fates: ok, t: [2]int{2, 3}},
 		{name: "control-close-vs-refresh", control: true, hosts: 2, numConns: 1, closers: 1, refresh: true, fates: ok, t: [2]int{2, 3}},
+		{name: "control-close-at-the-debounce-instant", control: true, hosts: 1, numConns: 1, closers: 1, refresh: true, closeDelay: time.Second, fates: ok, t: [2]int{2, 3}},
 		{name: "control-late-close-vs-reconnect", control: true, hosts: 1, numConns: 1, closers: 1, dropCtl: true, lateClose: true, fates: ok, t: [2]int{2, 3}},
 		{name: "control-close-vs-reconnect", control: true, hosts: 2, numConns: 1, closers: 1, dropCtl: true, fates: ok, t: [2]int{1, 3}},
 	}
